@@ -265,32 +265,51 @@ def observed : ParserBehaviour where
     · exact Or.inr (by simp)
   clean_ok := by intro k; cases k <;> simp [XmlMember.clean]
 
+/-- the member can reach its parser only through a text transformer (according to the inventory) -/
+def preppedB (ep : EP) (pt : Part) (objEmpty : Bool) : Bool := (sitesForB ep pt objEmpty).any (fun s => s.prep != 0)
+
+def prepped (ep : EP) (m : Member) : Bool := preppedB ep m.part m.obj.isEmpty
+
+/-- **OBLIGATION on the text pre-processing between the zip member and the parser** (`__fixXmlPart` in
+    `__loadxmlparts`: it inserts missing `xmlns:` declarations into the root element's start tag).  `fix` is its
+    effect on what matters of the member; it must leave the DOCTYPE facts as they are — a transformer that deletes
+    or rewrites the document type declaration would hide an entity declaration from the defused parser.
+    Stated here as a hypothesis of the refusal theorems; tied to the code by harness/c13.py: every member text of
+    the fault matrix (all injection kinds × all prolog layouts) is fed to the real `__fixXmlPart` and everything
+    before the root element must come back character for character. -/
+structure Prep where
+  fix : XmlMember → XmlMember
+  preserves : ∀ x, fix x = x
+
+def Prep.id : Prep := ⟨fun x => x, fun _ => rfl⟩
+
 /-- a listed member that is absent from the zip: `__loadxmlparts` swallows the KeyError; the other readers
     let it propagate -/
 def skipsMissing (ep : EP) (m : Member) : Bool := ep.shape == .loadLike && m.part != .manifest
 
 /-- one member handed to its parser, then (where the code has it) the doctype test of `_parse` -/
-def readMember (B : ParserBehaviour) (ep : EP) (m : Member) (x : XmlMember) : Except Err Outcome :=
+def readMember (B : ParserBehaviour) (P : Prep) (ep : EP) (m : Member) (x : XmlMember) : Except Err Outcome :=
   match kind ep m with
   | none => .error .noParser
   | some k =>
-    match B.parse k x with
+    match B.parse k (if prepped ep m then P.fix x else x) with
     | .error e => .error e
     | .ok o => if guarded ep m && x.externalSubset then .error .externalReferenceForbidden else .ok o
 
 /-- run the entry point's walk: the first refusal aborts the call -/
-def readList (B : ParserBehaviour) (ep : EP) (p : Pkg) : List Member → Except Err (List Outcome)
+def readList (B : ParserBehaviour) (P : Prep) (ep : EP) (p : Pkg) : List Member → Except Err (List Outcome)
   | [] => .ok []
   | m :: ms =>
     match p.lookup m.path with
-    | none => if skipsMissing ep m then readList B ep p ms else .error .missing
+    | none => if skipsMissing ep m then readList B P ep p ms else .error .missing
     | some x =>
-      match readMember B ep m x with
+      match readMember B P ep m x with
       | .error e => .error e
-      | .ok o => match readList B ep p ms with
+      | .ok o => match readList B P ep p ms with
         | .error e => .error e
         | .ok os => .ok (o :: os)
 
-def read (B : ParserBehaviour) (ep : EP) (p : Pkg) : Except Err (List Outcome) := readList B ep p (readOrder ep p)
+def read (B : ParserBehaviour) (P : Prep) (ep : EP) (p : Pkg) : Except Err (List Outcome) :=
+  readList B P ep p (readOrder ep p)
 
 end OdfModel.Entity
